@@ -775,6 +775,90 @@ def rule_decided_exits(F, R):
     R.floor("R-C03-11", n, 4, "early exits of the ellipsoid / RQB / FPBA main loops")
 
 
+def rule_aggregate_fresh(F, R):
+    """R-C03-12: the aggregate cut that `append_aggregate()` re-inserts has to be the one computed (`store_aggregate()`: the convex combination of
+    the current cuts with the current multipliers) since the multipliers last changed. Per bundle_t method a must-dataflow over its CFG gives
+    (needs the stored aggregate at entry, guarantees it at exit, may invalidate it), with callee summaries: store_aggregate generates the fact,
+    new multipliers (writes to m_alphas inside solve) kill it, append_aggregate needs it. The update API (moveto / append) may need it at entry
+    only if solve() guarantees it on *every* path - an early return of solve() that skips the store leaves the aggregate of an earlier solve,
+    expressed relative to an earlier centre: no longer a lower bound of f."""
+    from ..cfg import must_dataflow
+    ms = {}
+    for f in F.functions.values():
+        if f.cls == "nano::bundle_t" and f.body is not None and not f.is_lambda and not f.raw.get("ctor"):
+            ms[f.qn + "/%d" % len(f.params)] = f
+    memo = {}
+
+    def summary(key, depth=0):
+        if key in memo:
+            return memo[key]
+        f = ms.get(key)
+        if f is None or depth > 8:
+            return (False, False, False)
+        if f.name == "store_aggregate":
+            memo[key] = (False, True, False)
+            return memo[key]
+        if f.name == "append_aggregate":
+            memo[key] = (True, False, False)
+            return memo[key]
+        memo[key] = (False, False, False)
+        producer = f.name == "solve"
+        res = {}
+        for entry in (True, False):
+            needs = [False]
+            killed = [False]
+
+            def telem(facts, e, needs=needs, killed=killed):
+                if e.kind != "node" or e.node is None:
+                    return
+                n_ = e.node
+                a_ = assignment(n_)
+                if producer and a_ and any(y["k"] == "mem" and y.get("n") == "m_alphas" for y in walk(a_[0])):
+                    facts.discard("A")
+                    killed[0] = True
+                    return
+                if n_["k"] == "call":
+                    cq = callee(n_)
+                    if cq.startswith("nano::bundle_t::") and not n_.get("static"):
+                        nd, gen, kill = summary(cq + "/%d" % len(args(n_)), depth + 1)
+                        if nd and "A" not in facts:
+                            needs[0] = True
+                        if kill:
+                            facts.discard("A")
+                            killed[0] = True
+                        if gen:
+                            facts.add("A")
+            IN, before = must_dataflow(f.cfg, {"A"} if entry else set(), telem)
+            outs = []
+            for b in f.cfg.blocks:
+                if IN[b] is None or [s_ for s_ in f.cfg.blocks[b].succ if s_ >= 0]:
+                    continue
+                cur = before(b, 10 ** 9)
+                outs.append("A" in cur)
+            res[entry] = (needs[0], all(outs) if outs else entry, killed[0])
+        # needs: judged with an empty entry; gen: A at every exit even from an empty entry; kill: some path invalidates
+        memo[key] = (res[False][0], res[False][1], res[True][2] and not res[True][1])
+        return memo[key]
+    for k in list(ms):
+        summary(k)
+    if not any(k.split("/")[0].endswith("::append_aggregate") for k in ms) or not any(k.split("/")[0].endswith("::store_aggregate") for k in ms):
+        R.incomplete("R-C03-12", "aggregate", "src/solver/bundle.cpp:1", "store_aggregate / append_aggregate not found")
+        return
+    solve = [v for k, v in memo.items() if k.split("/")[0] == "nano::bundle_t::solve"]
+    n = 0
+    for k, (nd, gen, kill) in sorted(memo.items()):
+        name = k.split("/")[0].split("::")[-1]
+        if name not in ("moveto", "append") or k.endswith("/4"):
+            continue
+        n += 1
+        ok = (not nd) or (solve and all(s_[1] for s_ in solve))
+        R.check(ok, "R-C03-12", "bundle_t::%s" % name, ms[k].loc(), "the aggregate re-inserted by append_aggregate() was stored since the multipliers last changed",
+                "%s() reaches append_aggregate() without a store_aggregate() of its own, and solve() does not store the aggregate on every path (some exit follows new "
+                "multipliers without it): the cut re-inserted when the bundle is full can be the aggregate of an earlier solve, relative to an earlier centre - not a lower "
+                "bound of f any more, the search then reports converged away from the optimum" % name)
+    R.floor("R-C03-12", n, 2, "bundle update entry points")
+
+
 def run(ctx):
     R = ctx.report
     F = ctx.facts(TUS)
@@ -789,3 +873,4 @@ def run(ctx):
     rule_ellipsoid_update(F, R)
     rule_bundle_protocol(F, R)
     rule_decided_exits(F, R)
+    rule_aggregate_fresh(F, R)
